@@ -29,6 +29,8 @@ IMPORTS = "From Coq Require Import List Arith Bool QArith. From PTN Require Impo
 PRIMES = [{"1": 1, "g1": 2, "g2": 3, "g3": 5, "g4": 7}, {"1": 1, "g1": 11, "g2": 13, "g3": 17, "g4": 19},
           {"1": 1, "g1": 101, "g2": 211, "g3": 307, "g4": 401}]
 SV_TOL = 1e-9
+HUB_TIE_MAX = 60     # quick tier: many-term cases with more terms than this are oracle-only
+DET_MAX = 7          # largest minor whose determinant is recomputed in Coq (Laplace expansion)
 
 
 def subtree_nodes(children, c):
@@ -135,6 +137,42 @@ def schmidt_rank(H, dims, A):
     return r, float(sv[r - 1] / sv[0]), float(sv[r] / sv[0]) if r < len(sv) else 0.0
 
 
+def _balanced_order(sizes, group):
+    """a permutation of range(len(sizes)) whose consecutive groups of `group` indices have about equal total size"""
+    n = len(sizes)
+    k = max(1, -(-n // group))
+    by_size = sorted(range(n), key=lambda i: -sizes[i])
+    return [i for g in range(k) for i in by_size[g::k]]
+
+
+def matching_number(M):
+    """size of a maximum matching (= minimum vertex cover, Koenig) of the bipartite support graph of M"""
+    m, n = len(M), len(M[0]) if M else 0
+    adj = [[j for j in range(n) if M[i][j] != 0] for i in range(m)]
+    match = [-1] * n
+
+    def aug(i, seen):
+        for j in adj[i]:
+            if j not in seen:
+                seen.add(j)
+                if match[j] < 0 or aug(match[j], seen):
+                    match[j] = i
+                    return True
+        return False
+    return sum(aug(i, set()) for i in range(m))
+
+
+def elimination_gain(case):
+    """max over the edges of (minimum vertex cover of the support of Gamma_e) - rank Gamma_e: positive iff on some edge the
+    plain bipartite-graph optimisation of the raw coefficient matrix cannot reach the operator Schmidt rank, so that the
+    elimination steps (deparallelisation, row/column elimination) are what makes the bond minimal"""
+    best = 0
+    for c in range(1, len(case["children"])):
+        M = gamma_matrix(case, c, PRIMES[0])
+        best = max(best, matching_number(M) - len(pivots(M)[0]))
+    return best
+
+
 def coq_mat(M):
     return coq_list(M, lambda row: coq_list(row, coq_q))
 
@@ -167,6 +205,133 @@ def sge_calls_encoded(calls):
     return out
 
 
+# ------------------------------------------------------------------------------------------
+# process histories: a case with "proc": "fresh" is executed as the first thing a pristine process does (after its optional
+# "history": earlier TTNO constructions, any method, in the same process).  One zygote process per check run imports the
+# library and this module and constructs nothing; every such case runs in a child forked from it, so the module-level
+# state of the library at the start of the case is exactly the state after `import pytreenet`, and a replay of the case
+# alone reproduces the run.
+# ------------------------------------------------------------------------------------------
+_ZYG_BOOT = r"""
+import sys, os, json
+sys.path[:0] = json.loads(os.environ["C12_ZYG_PATH"])
+import warnings; warnings.filterwarnings("ignore")
+import lib
+lib.setup_repo_import()
+import pytreenet  # noqa
+from props import c12
+c12.zygote_loop()
+"""
+_ZYG = {}            # slot -> zygote process
+ZYG_SLOTS = 6
+ZYG_TIMEOUT = 300
+
+
+def zygote_loop():
+    """runs in the zygote: one JSON case per line on stdin -> fork -> the child writes one JSON line (the observation)"""
+    import json
+    import os
+    import select
+    import signal
+    import sys
+    out = sys.stdout
+    for line in sys.stdin:
+        line = line.strip()
+        if not line:
+            continue
+        r, w = os.pipe()
+        pid = os.fork()
+        if pid == 0:
+            os.close(r)
+            try:
+                case = json.loads(line)
+                try:
+                    ob = C12()._impl_core(case)
+                except Exception as e:  # noqa
+                    ob = {"harness_error": f"{type(e).__name__}: {e}", "tb": traceback.format_exc()[-1500:]}
+                data = json.dumps(lib.jsonable(ob)).encode()
+            except BaseException as e:  # noqa
+                data = json.dumps({"harness_error": f"child: {type(e).__name__}: {e}"}).encode()
+            with os.fdopen(w, "wb") as f:
+                f.write(data)
+            os._exit(0)
+        os.close(w)
+        chunks = []
+        deadline = ZYG_TIMEOUT
+        import time
+        t0 = time.time()
+        while True:
+            left = deadline - (time.time() - t0)
+            if left <= 0 or not select.select([r], [], [], left)[0]:
+                os.kill(pid, signal.SIGKILL)
+                chunks = [json.dumps({"harness_error": f"fresh-process case exceeded {ZYG_TIMEOUT} s"}).encode()]
+                break
+            b = os.read(r, 1 << 16)
+            if not b:
+                break
+            chunks.append(b)
+        os.close(r)
+        os.waitpid(pid, 0)
+        data = b"".join(chunks) or json.dumps({"harness_error": "fresh-process child died without an observation"}).encode()
+        out.write(data.decode() + "\n")
+        out.flush()
+
+
+def _zygote(slot=0):
+    import atexit
+    import json
+    import os
+    import subprocess
+    import sys
+    p = _ZYG.get(slot)
+    if p is not None and p.poll() is None:
+        return p
+    here = os.path.dirname(os.path.dirname(os.path.abspath(__file__)))
+    env = dict(os.environ, C12_ZYG_PATH=json.dumps([here]), PYTHONHASHSEED="0", PYTHONDONTWRITEBYTECODE="1", OMP_NUM_THREADS="1",
+               OPENBLAS_NUM_THREADS="1", MKL_NUM_THREADS="1")
+    env[lib.GUARD] = "1"
+    p = subprocess.Popen([sys.executable, "-W", "ignore", "-c", _ZYG_BOOT], stdin=subprocess.PIPE, stdout=subprocess.PIPE,
+                         stderr=subprocess.DEVNULL, env=env, text=True, bufsize=1)
+    _ZYG[slot] = p
+
+    def _stop():
+        try:
+            p.stdin.close()
+            p.wait(timeout=5)
+        except Exception:  # noqa
+            p.kill()
+    atexit.register(_stop)
+    return p
+
+
+def zygote_run(case, slot=0):
+    import json
+    try:
+        p = _zygote(slot)
+        p.stdin.write(json.dumps(lib.jsonable(case)) + "\n")
+        p.stdin.flush()
+        line = p.stdout.readline()
+        if not line:
+            raise RuntimeError("zygote process ended")
+        return json.loads(line)
+    except Exception as e:  # noqa
+        _ZYG.pop(slot, None)
+        return {"harness_error": f"fresh-process runner: {type(e).__name__}: {e}"}
+
+
+def run_history(history):
+    """earlier TTNO constructions in the same process (any construction method); what they return is not judged here
+    (exactness of the other methods is C01's subject): [method, None | exception text]"""
+    out = []
+    for h in history:
+        try:
+            TTNO.from_hamiltonian(build_ham(h), build_ref(h), finder(h["method"]))
+            out.append([h["method"], None])
+        except Exception as e:  # noqa
+            out.append([h["method"], f"{type(e).__name__}: {e}"[:200]])
+    return out
+
+
 class C12(Prop):
     id = "C12"
     title = "SGE bond dimensions are minimal"
@@ -176,7 +341,16 @@ class C12(Prop):
             "labels per site of dimension d (so distinct strings are linearly independent for generic operator values), 45% with expanded "
             "products of local sums (rank-deficient coefficient matrices, where elimination beats the plain vertex cover), 20% random symbolic "
             "coefficient matrices across one edge (one term per entry), 15% operator names with ambiguous concatenations, coefficient mode "
-            "unit/frac/sym/symshared; method SGE. one case per (tree, Hamiltonian); non-trivial = some edge of rank >= 2; distinct by content")
+            "unit/frac/sym/symshared; method SGE. one case per (tree, Hamiltonian); non-trivial = some edge of rank >= 2; distinct by content. "
+            "PROCESS HISTORIES (cases with proc=fresh run in a process forked from a zygote that imported the library and constructed nothing, "
+            "so the case states its whole history and replays alone): 'first' = a main-family case as the very first construction of a process; "
+            "'history' = 1..3 earlier constructions in the same process with methods SGE/BIPARTITE/BASE/TREE (own random trees and Hamiltonians, "
+            "30% the judged Hamiltonian itself), then the judged SGE construction, 75% of them chosen (rejection sampling, independent exact "
+            "computation) with an edge whose rank is below the minimum vertex cover of the raw coefficient matrix, i.e. where the elimination "
+            "itself is needed; 'hub' = 6..160 distinct terms with up to 6 labels per site on stars/spiders/random trees with a node of >= 3 "
+            "neighbours, branching nodes mostly without operator (dimension 1 or untouched), unit or rational coefficients, first "
+            "construction (80%) or after a history: diagrams with hundreds of vertices. All other cases share the process of the check run "
+            "(a long history of SGE constructions). Quick tier: hub cases with more than 60 terms are judged by the oracle only (no tie)")
     clauses = [
         ("F", "min_cert_sound: an accepted certificate (row/column indices of an r x r minor of Gamma and its inverse) excludes every factorisation "
               "Gamma = X*Y through an inner dimension k < r, for all matrices and all X, Y (C12_min_cert_sound; core lemma C12_kernel_vector: k equations "
@@ -196,6 +370,10 @@ class C12(Prop):
               "state_diagram module boundary: input matrix, returned L, M', R) is replayed on SGE/Model.v by vm_compute and must agree exactly; a recorded "
               "known finding is attributed only to constructions whose elimination calls all agree with the model of the unchanged algorithm"),
         ("V", "ttno.bond_dims()[e] == max(r, 1) and == number of vertices of the exported diagram on e (>= is then a consequence of exactness, <= is the observation)"),
+        ("V", "process histories: the oracle below judges the SGE construction as first construction of a pristine process, after earlier "
+              "constructions with the other methods (BIPARTITE, BASE, TREE, SGE) in the same process, and late in a long-running process; "
+              "certificates and the call-path tie apply to these cases unchanged (minors larger than 7 x 7: min_cert only, the determinant "
+              "cross-check is skipped)"),
         ("V", "oracle: numerical operator Schmidt rank of the dense Hamiltonian across e (SVD, relative threshold 1e-9, generic random operator and "
               "coefficient values) equals the bond dimension; single-term Hamiltonians give bond dimension 1 everywhere"),
     ]
@@ -234,26 +412,9 @@ class C12(Prop):
                         rng.shuffle(cs)
             else:
                 ch = random_children(rng, rng.choice([2, 3, 3, 4, 4, 5, 5, 6, 7]))
-            n = len(ch)
-            phys = random_phys(rng, n, cap)
-            if all(d == 1 for d in phys):
-                phys[rng.randrange(n)] = 2
-            coefmode = rng.choice(["unit", "unit", "frac", "sym", "sym", "symshared"])
-            nterms = 1 if g % 10 == 3 else rng.choice([1, 2, 3, 3, 4, 4, 5, 6, 7, 8])
-            product = rng.random() < 0.45
-            amb = rng.random() < 0.15         # operator names with ambiguous concatenations (n, nn, nnn) on the dimension-2 sites
-            if amb:
-                phys = [min(d, 2) for d in phys]
-            gamma = rng.random() < 0.2        # random symbolic coefficient matrix across one edge (see c01.gamma_terms)
-            if gamma:
-                coefmode = "sym"
-            terms = random_terms(rng, phys, nterms, coefmode, "none", rng.choice([1, 2, 3]), distinct_strings=True, physical_only=True,
-                                 product=product, amb=(ch if amb else None), gamma_on=(ch if gamma else None))
-            if not terms:
-                continue
-            struct = ("gamma+product" if product else "gamma") if gamma else ("product" if product else "random")
-            cases.append({"kind": "ham", "method": "SGE", "children": ch, "phys": phys, "terms": terms, "nlabels": 3, "coefmode": coefmode,
-                          "dupmode": "none", "struct": struct, "labelset": "amb" if amb else "std", "seed": rng.randrange(10 ** 6), "group": g})
+            case = self._random_case(rng, ch, cap, g)
+            if case is not None:
+                cases.append(case)
         # "row-symbol" family: Gamma = diag(g_i) * A across one edge, with A a 0/1 matrix whose COLUMNS are
         # linearly dependent in a way that is not plain parallelism (each row carries its own symbol, so row
         # elimination cannot see it): the minimal bond needs column additions that create new symbolic entries
@@ -314,7 +475,145 @@ class C12(Prop):
             rng.shuffle(terms)
             cases.append({"kind": "ham", "method": "SGE", "children": ch, "phys": phys, "terms": terms, "nlabels": 6, "coefmode": "sym",
                           "dupmode": "none", "struct": "partsym", "seed": rng.randrange(10 ** 6), "group": 20000 + k})
+        cases += self._history_cases(ctx, rng, cap, budget_scale)
         return cases
+
+    def _history_cases(self, ctx, rng, cap, budget_scale):
+        """process histories (the property holds for every construction of a program, whatever the process did before):
+        "proc": "fresh" cases run in a process forked from a pristine zygote (library imported, nothing constructed)
+          * first:   a case of the main family as the very first construction of a process
+          * history: 1..3 earlier constructions (methods SGE / BIPARTITE / BASE / TREE, their own trees and Hamiltonians)
+                     in the same process, then the judged SGE construction
+          * hub:     many terms (6..160) with up to 6 operator labels per site on trees with a node of >= 3 neighbours
+                     (stars, spiders, random trees), as first construction or after a history: large diagrams, hundreds of
+                     vertices and hyperedges meeting at one node"""
+        out = []
+        sizes = [2, 3, 3, 4, 4, 5, 5, 6, 7]
+        for k in range(ctx.scale(24, 300) * budget_scale):
+            case = self._random_case(rng, random_children(rng, rng.choice(sizes)), cap, 30000 + k)
+            if case is None:
+                continue
+            case.update(proc="fresh", hist="first")
+            out.append(case)
+        for k in range(ctx.scale(40, 600) * budget_scale):
+            # three quarters of the judged Hamiltonians: some edge where the rank is below the vertex cover of the raw
+            # coefficient matrix (the elimination itself is needed for minimality), by rejection sampling
+            want_gain = rng.random() < 0.75
+            for _try in range(12):
+                case = self._random_case(rng, random_children(rng, rng.choice(sizes)), cap, 40000 + k, p_product=0.7)
+                if case is not None and (not want_gain or elimination_gain(case) > 0):
+                    break
+            if case is None:
+                continue
+            case.update(proc="fresh", hist="history", history=self._random_history(rng, cap, case))
+            out.append(case)
+        for k in range(ctx.scale(30, 400) * budget_scale):
+            case = self._hub_case(rng, 50000 + k, ctx.scale(250, 500))
+            if case is None:
+                continue
+            case.update(proc="fresh", hist="first")
+            if rng.random() < 0.2:
+                case.update(hist="history", history=self._random_history(rng, cap, case))
+            out.append(case)
+        return out
+
+    def _random_history(self, rng, cap, case):
+        hist = []
+        for _ in range(rng.choice([1, 1, 2, 3])):
+            if rng.random() < 0.3:         # the same tree and Hamiltonian built with another method first
+                h = {k: copy.deepcopy(case[k]) for k in ("children", "phys", "terms", "nlabels", "seed") if k in case}
+                if "labelset" in case:
+                    h["labelset"] = case["labelset"]
+            else:
+                h = None
+                while h is None:
+                    h = self._random_case(rng, random_children(rng, rng.choice([2, 3, 4, 4, 5, 6])), cap, 0, coefmodes=("unit", "frac", "sym"))
+                h = {k: h[k] for k in ("children", "phys", "terms", "nlabels", "seed", "labelset")}
+            h["method"] = rng.choice(["SGE", "BIPARTITE", "BIPARTITE", "BASE", "TREE"])
+            hist.append(h)
+        return hist
+
+    @staticmethod
+    def _hub_case(rng, g, cap):
+        """many distinct terms around a node with >= 3 neighbours; up to 6 labels per site (<= d^2 - 1)"""
+        shape = rng.choice(["star", "star", "star", "spider", "random"])
+        if shape == "random":
+            for _ in range(50):
+                ch = random_children(rng, rng.choice([4, 5, 5, 6]))
+                par = parents_of(ch)
+                if any(len(ch[i]) + (par[i] is not None) >= 3 for i in range(len(ch))):
+                    break
+            else:
+                return None
+        else:
+            k = rng.choice([3, 3, 3, 4])
+            ch = [list(range(1, k + 1))] + [[] for _ in range(k)]
+            if shape == "spider":
+                for leaf in range(1, k + 1):
+                    if rng.random() < 0.35 and len(ch) < 6:
+                        ch.append([])
+                        ch[leaf].append(len(ch) - 1)
+            rng.shuffle(ch[0])
+            if rng.random() < 0.2:        # re-root at a leaf: the hub is then an inner node with a parent
+                ch = [[1]] + [[c + 1 for c in cs] for cs in ch]
+        n = len(ch)
+        phys = [3] * n if rng.random() < 0.5 else [rng.choice([2, 3, 3, 3]) for _ in range(n)]
+        par = parents_of(ch)
+        silent = set()                   # branching nodes without a physical operator (as in T3NS-like layouts): dimension
+        for i in range(n):               # 1, or a physical leg that no term acts on
+            if len(ch[i]) + (par[i] is not None) >= 3 and rng.random() < 0.65:
+                phys[i] = rng.choice([1, 1, 2])
+                silent.add(i)
+        while int(np.prod(phys)) > cap:
+            i = max(range(n), key=lambda q: (phys[q], rng.random()))
+            phys[i] -= 1
+        nlab = rng.choice([3, 6, 6, 6])
+        T = rng.choice([6, 20, 40, 60, 80, 100, 120, 160])
+        ptouch = rng.choice([0.7, 0.9, 1.0])
+        coefmode = rng.choice(["unit", "unit", "frac"])
+        seen, terms, tries = set(), [], 0
+        while len(terms) < T and tries < 10 * T:
+            tries += 1
+            ops = []
+            for s_ in range(n):
+                d = phys[s_]
+                if d > 1 and s_ not in silent and rng.random() < ptouch:
+                    ops.append([s_, f"A{rng.randrange(min(nlab, d * d - 1))}_{d}"])
+            key = tuple(sorted(map(tuple, ops)))
+            if not ops or key in seen:
+                continue
+            seen.add(key)
+            rng.shuffle(ops)
+            fr = Fraction(1) if coefmode == "unit" else Fraction(rng.choice([1, 2, -1, 3, -2, 5]), rng.choice([1, 1, 2, 3]))
+            terms.append([fr.numerator, fr.denominator, "1", ops])
+        if len(terms) < 2:
+            return None
+        return {"kind": "ham", "method": "SGE", "children": ch, "phys": phys, "terms": terms, "nlabels": nlab, "coefmode": coefmode,
+                "dupmode": "none", "struct": "hub", "labelset": "std", "seed": rng.randrange(10 ** 6), "group": g}
+
+    @staticmethod
+    def _random_case(rng, ch, cap, g, coefmodes=("unit", "unit", "frac", "sym", "sym", "symshared"), p_product=0.45):
+        """one (tree, distinct-term Hamiltonian) of the main family on the tree `ch`"""
+        n = len(ch)
+        phys = random_phys(rng, n, cap)
+        if all(d == 1 for d in phys):
+            phys[rng.randrange(n)] = 2
+        coefmode = rng.choice(list(coefmodes))
+        nterms = 1 if g % 10 == 3 else rng.choice([1, 2, 3, 3, 4, 4, 5, 6, 7, 8])
+        product = rng.random() < p_product
+        amb = rng.random() < 0.15         # operator names with ambiguous concatenations (n, nn, nnn) on the dimension-2 sites
+        if amb:
+            phys = [min(d, 2) for d in phys]
+        gamma = rng.random() < 0.2        # random symbolic coefficient matrix across one edge (see c01.gamma_terms)
+        if gamma:
+            coefmode = "sym"
+        terms = random_terms(rng, phys, nterms, coefmode, "none", rng.choice([1, 2, 3]), distinct_strings=True, physical_only=True,
+                             product=product, amb=(ch if amb else None), gamma_on=(ch if gamma else None))
+        if not terms:
+            return None
+        struct = ("gamma+product" if product else "gamma") if gamma else ("product" if product else "random")
+        return {"kind": "ham", "method": "SGE", "children": ch, "phys": phys, "terms": terms, "nlabels": 3, "coefmode": coefmode,
+                "dupmode": "none", "struct": struct, "labelset": "amb" if amb else "std", "seed": rng.randrange(10 ** 6), "group": g}
 
     def nontrivial(self, case):
         return any(certificate(case, c)["r"] >= 2 for c in range(1, len(case["children"])))
@@ -328,14 +627,29 @@ class C12(Prop):
             c["struct:" + x.get("struct", "random")] += 1
             c["labels:" + x.get("labelset", "std")] += 1
             c["has_dim1_node"] += 1 in x["phys"]
+            c["process:" + ("shared with the earlier cases of the run" if x.get("proc") != "fresh" else
+                            "pristine, first construction" if not x.get("history") else "pristine, after a history")] += 1
+            for h in x.get("history", []):
+                c["history_method:" + h["method"]] += 1
+            if x.get("history"):
+                c[f"history_len:{len(x['history'])}"] += 1
             for e in range(1, len(x["children"])):
                 c[f"edge_rank:{certificate(x, e)['r']}"] += 1
         return dict(c)
 
     # ------------------------------------------------------------------------------ implementation
     def _impl_one(self, case):
+        if case.get("proc") == "fresh":
+            # the case names its whole process history: run it in a process forked from a zygote that has imported the
+            # library and constructed nothing (module-level state exactly as after `import pytreenet`)
+            return zygote_run(case)
+        return self._impl_core(case)
+
+    def _impl_core(self, case):
         ob = {}
         assert not case_features(case)["same_string"], "harness: C12 needs pairwise distinct operator strings"
+        if case.get("history"):
+            ob["history"] = run_history(case["history"])
         ttns = build_ref(case)
         ham = build_ham(case)
         ch = case["children"]
@@ -393,29 +707,69 @@ class C12(Prop):
         return ob
 
     def impl(self, ctx, cases):
-        out = []
-        for c in cases:
+        out = [None] * len(cases)
+        fresh = [k for k, c in enumerate(cases) if c.get("proc") == "fresh"]
+        if len(fresh) > 1:
+            # every such case runs in its own pristine process, so they can run side by side (one zygote per slot)
+            import queue
+            from concurrent.futures import ThreadPoolExecutor
+            slots = queue.Queue()
+            for s_ in range(ZYG_SLOTS):
+                slots.put(s_)
+
+            def run(k):
+                s_ = slots.get()
+                try:
+                    return k, zygote_run(cases[k], s_)
+                finally:
+                    slots.put(s_)
+            with ThreadPoolExecutor(ZYG_SLOTS) as ex:
+                for k, ob in ex.map(run, fresh):
+                    out[k] = ob
+        for k, c in enumerate(cases):
+            if out[k] is not None:
+                continue
             try:
-                out.append(self._impl_one(c))
+                out[k] = self._impl_one(c)
             except Exception as e:  # noqa
-                out.append({"harness_error": f"{type(e).__name__}: {e}", "tb": traceback.format_exc()[-1500:]})
+                out[k] = {"harness_error": f"{type(e).__name__}: {e}", "tb": traceback.format_exc()[-1500:]}
         return out
 
     # ------------------------------------------------------------------------------ model
     def model(self, ctx, cases, obs):
         exprs, owner = [], []
         certs = []
+        untied = set()
         for k, c in enumerate(cases):
             cc = {}
+            if c.get("struct") == "hub" and len(c["terms"]) > HUB_TIE_MAX and not ctx.thorough():
+                # quick tier: the biggest many-term cases are judged by the property oracle only (no certificates, no
+                # call-path tie: their matrices dominate the Coq evaluation time); the thorough tier ties all of them
+                untied.add(k)
+                certs.append(cc)
+                continue
             for e in range(1, len(c["children"])):
                 ce = certificate(c, e)
                 cc[e] = ce
                 M = ce["M"]
-                exprs.append(f"rank_case {coq_mat(M)} {coq_nat(len(M))} {coq_nat(len(M[0]))} {coq_list(ce['rs'], coq_nat)} "
-                             f"{coq_list(ce['cs'], coq_nat)} {coq_mat(ce['B'])}")
+                args = (f"{coq_mat(M)} {coq_nat(len(M))} {coq_nat(len(M[0]))} {coq_list(ce['rs'], coq_nat)} "
+                        f"{coq_list(ce['cs'], coq_nat)}")
+                if ce["r"] <= DET_MAX:
+                    exprs.append(f"rank_case {args} {coq_mat(ce['B'])}")
+                else:
+                    # the determinant cross-check is a Laplace expansion (exponential): for big minors only the certificate
+                    # itself (min_cert, the hypothesis of min_cert_sound; polynomial) is evaluated
+                    ce["nodet"] = True
+                    exprs.append(f"(shape_ok {coq_mat(M)} {coq_nat(len(M))} {coq_nat(len(M[0]))}, min_cert {args} {coq_mat(ce['B'])}, (1%Z, 1%positive))")
                 owner.append((k, e))
             certs.append(cc)
-        vals = coq_eval(ctx, IMPORTS, exprs, shard=60)
+        # shards are consecutive groups of 60 expressions evaluated in parallel: deal the expressions out by size so that
+        # the big certificates (many-term cases) do not end up in one shard
+        order = _balanced_order([len(x) for x in exprs], 60)
+        vals_p = coq_eval(ctx, IMPORTS, [exprs[i] for i in order], shard=60)
+        vals = [None] * len(exprs)
+        for i, v in zip(order, vals_p):
+            vals[i] = v
         out = [dict() for _ in cases]
         n = ok = 0
         fails = []
@@ -427,7 +781,8 @@ class C12(Prop):
                 fails.append(f"certificate not evaluated: {str(v)[:200]}")
                 continue
             shape_ok, cert_ok, det = v
-            out[k][e] = {"r": ce["r"], "shape_ok": shape_ok, "cert_ok": cert_ok, "det": Fraction(det[0], det[1]), "det_py": ce["det"]}
+            out[k][e] = {"r": ce["r"], "shape_ok": shape_ok, "cert_ok": cert_ok, "det": Fraction(det[0], det[1]),
+                         "det_py": Fraction(1) if ce.get("nodet") else ce["det"]}
             if shape_ok and cert_ok:
                 ok += 1
             else:
@@ -437,7 +792,7 @@ class C12(Prop):
         from props import c13
         lits, where = [], []
         for k, ob in enumerate(obs):
-            if isinstance(ob, dict):
+            if isinstance(ob, dict) and k not in untied:
                 for j, (lit, enc, _m) in enumerate(ob.get("sge_calls", [])):
                     if lit is not None:
                         lits.append(lit)
@@ -447,15 +802,18 @@ class C12(Prop):
         self._sge_by_hash = {}
         self._sge_stats = [len(lits), 0]
         if lits:
-            exprs = [("ge_list [" + ";\n ".join(lits[i:i + 100]) + "]", len(lits[i:i + 100])) for i in range(0, len(lits), 100)]
+            order = _balanced_order([len(x) for x in lits], 100)
+            lits_p = [lits[i] for i in order]
+            exprs = [("ge_list [" + ";\n ".join(lits_p[i:i + 100]) + "]", len(lits_p[i:i + 100])) for i in range(0, len(lits_p), 100)]
             vals = c13._coq_eval_ostr(ctx, exprs, 400)
             flat = []
             for v, (e, w) in zip(vals, exprs):
                 flat += ([v] * w) if isinstance(v, BaseException) else (list(v) if len(v) == w else [RuntimeError("count mismatch")] * w)
-            for (k, j), mv in zip(where, flat):
+            for i, mv in zip(order, flat):
+                k, j = where[i]
                 self._sge_model.setdefault(k, {})[j] = mv
         for k, ob in enumerate(obs):
-            if isinstance(ob, dict) and "sge_calls" in ob:
+            if isinstance(ob, dict) and "sge_calls" in ob and k not in untied:
                 agree = True
                 for j, (lit, enc, _m) in enumerate(ob["sge_calls"]):
                     mv = self._sge_model.get(k, {}).get(j)
@@ -470,6 +828,8 @@ class C12(Prop):
         if self._sge_stats[1] < self._sge_stats[0]:
             fails.append(f"{self._sge_stats[0] - self._sge_stats[1]} gaussian_elimination call(s) of the pipeline differ from SGE/Model.v (see the correspondence detail)")
         self._inst = (n, ok, fails[:3])
+        for k in untied:
+            out[k] = None
         return out
 
     def extra_obligations(self, ctx):
@@ -559,6 +919,41 @@ class C12(Prop):
         if m and int(m.group(1)) > int(m.group(2)):
             return kid
         return None
+
+    def shrink(self, ctx, case, pred):
+        """smaller failing input of the same kind: drop earlier constructions of the history, then blocks of terms (the terms
+        stay pairwise distinct), as long as the case still fails with a violation that is not a known finding"""
+        import time
+        t0, budget = time.time(), [120]
+
+        def fails(c):
+            if budget[0] <= 0 or time.time() - t0 > 60:
+                return False
+            budget[0] -= 1
+            try:
+                return bool(pred(c))
+            except Exception:  # noqa
+                return False
+        cur = copy.deepcopy(case)
+        hist = cur.get("history") or []
+        i = 0
+        while i < len(hist):
+            cand = dict(cur, history=hist[:i] + hist[i + 1:])
+            if fails(cand):
+                cur, hist = cand, cand["history"]
+            else:
+                i += 1
+        block = len(cur["terms"]) // 2
+        while block >= 1:
+            i = 0
+            while i < len(cur["terms"]) and len(cur["terms"]) > 1:
+                cand = dict(cur, terms=cur["terms"][:i] + cur["terms"][i + block:])
+                if cand["terms"] and fails(cand):
+                    cur = cand
+                else:
+                    i += block
+            block //= 2
+        return cur
 
     def sample_repr(self, case):
         return case
